@@ -65,14 +65,20 @@ pub struct Opts {
     pub euler: bool,
     /// periodic quotient: allow self neighbours / skip Euclidean-only checks
     pub periodic: bool,
+    /// demand that the boundary complex has the Euler characteristic of a (D-1)-sphere
+    pub boundary_euler: bool,
 }
 
 impl Opts {
     pub fn euclid(g: Guarantee, completion: bool) -> Self {
-        Opts { guarantee: g, completion, geometric_orientation: true, euler: true, periodic: false }
+        Opts { guarantee: g, completion, geometric_orientation: true, euler: true, periodic: false, boundary_euler: false }
+    }
+    /// Euclidean ball with sphere boundary (C01 strength)
+    pub fn ball(g: Guarantee, completion: bool) -> Self {
+        Opts { boundary_euler: true, ..Self::euclid(g, completion) }
     }
     pub fn structural_only() -> Self {
-        Opts { guarantee: Guarantee::Pseudomanifold, completion: false, geometric_orientation: false, euler: false, periodic: false }
+        Opts { guarantee: Guarantee::Pseudomanifold, completion: false, geometric_orientation: false, euler: false, periodic: false, boundary_euler: false }
     }
 }
 
@@ -418,7 +424,7 @@ pub fn check(s: &Snap, o: Opts) -> Report {
                 push(&mut r, 3, "euler_characteristic", msg);
             }
             let expect = 1 + if (d - 1) % 2 == 0 { 1 } else { -1 };
-            if bchi != expect {
+            if o.boundary_euler && bchi != expect {
                 push(&mut r, 3, "boundary_euler", format!("boundary chi = {}, expected {} for a (D-1)-sphere", bchi, expect));
             }
         }
